@@ -41,6 +41,7 @@ ASSUME = [
     "conn_provider.connect() eventually returns or raises KlongIPCCreateConnectionException (HostPortConnectionProvider: max_retries); _run never reconnects (every handler breaks out of its loop)",
     "the server answers a request only after it was sent, answers a close request with KGRemoteCloseConnection, and a server-side evaluation error shows at the client as the connection being closed (read in TcpServerConnectionHandler / NetworkClient._run)",
     "real TCP behaviour (half-open sockets, RST timing, writer.drain() failing before the reader sees the reset) is not exhibited by in-memory streams",
+    "klong-loop model: only the server's own .srv.o/.srv.c/.srv.e handlers are pinned (translator flag srv_callbacks_inline); callbacks passed through the Python API may block on anything. Peer requests interleaved with a call pending from the klong loop are the known finding C14-klong-reentrancy and are not generated elsewhere",
     "server half: an evaluation failure is an Exception; a BaseException that is not an Exception (KeyboardInterrupt, SystemExit, CancelledError, user classes) is caught by neither handler of execute_server_command and is outside the domain (modelled, stated as C14_server_baseexception_outside_domain, compared but not judged)",
     "asyncio.Future.set_exception refuses StopIteration (and subclasses) with TypeError and accepts every other Exception instance (modelled as future_accepts, exercised on the real loop)",
     "a caller that is still blocked 5 s (+5 s confirmation) after the step that should release it is reported as a hang",
@@ -168,12 +169,60 @@ def generate():
     out.append("Definition cleanup_iterates_snapshot : bool := %s." % astlib.coq_bool(snapshot))
     out.append("Definition finally_clears_writer : bool := %s." % astlib.coq_bool(clears_writer))
     out.append("Definition finally_cleans_pending : bool := %s." % astlib.coq_bool(clears and calls_cleanup))
+    def callback_flags():
+        m = astlib.module("klongpy/sys_fn_ipc.py")
+        cls = astlib.find_class(m, "TcpServerConnectionHandler")
+        methods = {n.name: n for n in cls.body if isinstance(n, (ast.FunctionDef, ast.AsyncFunctionDef))}
+        for nm in ("_on_connect", "_on_close", "_on_error"):
+            if nm not in methods:
+                raise ShapeError("TcpServerConnectionHandler.%s not found" % nm)
+        todo, seen = ["_on_connect", "_on_close", "_on_error"], set()
+        inline = True
+        while todo:
+            nm = todo.pop()
+            if nm in seen:
+                continue
+            seen.add(nm)
+            fn = methods[nm]
+            for n in ast.walk(fn):
+                if isinstance(n, (ast.Await, ast.AsyncFor, ast.AsyncWith)):
+                    inline = False        # the callback can wait for something (e.g. for the klong loop)
+                if isinstance(n, ast.Call) and isinstance(n.func, ast.Attribute):
+                    if n.func.attr in ("call_soon_threadsafe", "run_coroutine_threadsafe", "create_task", "ensure_future", "result", "wait"):
+                        inline = False
+                    if isinstance(n.func.value, ast.Name) and n.func.value.id == "self" and n.func.attr in methods:
+                        todo.append(n.func.attr)
+        # does _run fail the pending futures before it awaits on_error ?
+        run = astlib.find_func(astlib.find_class(m, "NetworkClient"), "_run")
+        tries = [n for n in ast.walk(run) if isinstance(n, ast.Try) and n.finalbody]
+        if len(tries) != 1:
+            raise ShapeError("_run: expected one try/finally")
+        first = True
+        found = 0
+        for h in tries[0].handlers:
+            aw = [n for n in ast.walk(h) if isinstance(n, ast.Await) and isinstance(n.value, ast.Call)
+                  and isinstance(n.value.func, ast.Name) and n.value.func.id == "on_error"]
+            for a in aw:
+                found += 1
+                cl = [c for c in astlib.calls_in(h, "_cleanup_pending_responses") if c.lineno < a.lineno]
+                if not cl:
+                    first = False
+        if found == 0:
+            raise ShapeError("_run: no `await on_error(...)` found in the handlers")
+        return inline, first
+
+    kf, why4 = astlib.try_flag(callback_flags)
     sf, why3 = astlib.try_flag(server_flags)
     if why3:
         out.append("(* execute_server_command shape not recognised: %s *)" % why3)
     wg, wk = sf if sf is not None else (False, False)
     out.append("Definition server_wraps_generic_errors : bool := %s." % astlib.coq_bool(wg))
     out.append("Definition server_wraps_keyerror : bool := %s." % astlib.coq_bool(wk))
+    if why4:
+        out.append("(* callbacks / _run ordering not recognised: %s *)" % why4)
+    inl, first = kf if kf is not None else (False, False)
+    out.append("Definition srv_callbacks_inline : bool := %s." % astlib.coq_bool(inl))
+    out.append("Definition run_fails_pending_before_callbacks : bool := %s." % astlib.coq_bool(first))
     return "\n".join(out) + "\n"
 
 
@@ -926,6 +975,152 @@ def child_main():
         def get_extra_info(self, name, default=None):
             return ("127.0.0.1", 1) if name == "peername" else default
 
+    def kloop_play(spec):
+        """the SERVER-side connection as a caller: handle_client/run_server with .srv.o/.srv.c/.srv.e defined in a real
+        interpreter; calls are issued through the connection handle from the KLONG LOOP thread ("k") or from another
+        thread ("t"); the harness is the remote client at frame level"""
+        from klongpy import KlongInterpreter
+        from klongpy.utils import CallbackEvent
+        io, iot, ios = setup_async_loop()
+        kl, klt, kls = setup_async_loop()
+        klong = KlongInterpreter()
+        klong['.system'] = {'ioloop': io, 'klongloop': kl, 'closeEvent': CallbackEvent()}
+        klong('client::0;nopen::0;nclosed::0;nerr::0')
+        klong('.srv.o::{client::x;nopen::nopen+1}')
+        if spec.get("handlers", True):
+            klong('.srv.c::{[t];t::x;nclosed::nclosed+1}')
+            klong('.srv.e::{[t];t::x;t::y;nerr::nerr+1}')
+        reader = asyncio.StreamReader(loop=io)
+        w = SrvWriter()
+        h = ipc.TcpServerConnectionHandler(io, kl, klong)
+        started = threading.Event()
+
+        def start():
+            KEEP.append((asyncio.ensure_future(h.handle_client(reader, w), loop=io), reader, w, h, klong, io, kl))
+            started.set()
+        io.call_soon_threadsafe(start)
+        started.wait(2 * DEADLINE)
+        events, notes, hung = [["connected"]], [], []
+        done, outcome, reported, kinds = {}, {}, set(), {}
+        kbusy = [None]
+
+        def io_quiesce(rounds=8):
+            for _ in range(rounds):
+                e = threading.Event()
+                io.call_soon_threadsafe(e.set)
+                if not e.wait(4 * DEADLINE):
+                    raise RuntimeError("io loop does not respond")
+                if kbusy[0] is None or kbusy[0] in outcome:
+                    e = threading.Event()
+                    kl.call_soon_threadsafe(e.set)
+                    e.wait(DEADLINE)        # a handler may be queued behind a blocked caller: that is what is being tested
+        t0 = time.time()
+        nc = None
+        while time.time() - t0 < 2 * DEADLINE:
+            io_quiesce(2)
+            nc = klong['client']
+            if isinstance(nc, ipc.NetworkClient):
+                break
+        if not isinstance(nc, ipc.NetworkClient):
+            return {"error": "connection never announced to .srv.o"}
+
+        def do_call(i):
+            try:
+                r = nc.call(("q", i))
+                outcome[i] = ["ret", i, ["v", r[1]]] if isinstance(r, tuple) and len(r) == 2 and r[0] == "a" else ["ret", i, ["v", -1]]
+            except BaseException as e:  # noqa
+                word = {"KlongException": "notest", "AttributeError": "attr", "KlongIPCConnectionFailureException": "connfail",
+                        "KGRemoteCloseConnectionException": "closeconn"}.get(type(e).__name__, "other")
+                outcome[i] = ["raise", i, word]
+            done[i].set()
+
+        def sent_ids():
+            return {f[1][1]: f[0] for f in w.frames if isinstance(f[1], tuple) and f[1] and f[1][0] == "q"}
+
+        def collect(must):
+            for i in sorted(done):
+                if i in reported:
+                    continue
+                if i in must and not done[i].is_set():
+                    if not (done[i].wait(DEADLINE) or done[i].wait(DEADLINE)):
+                        if i not in hung:
+                            hung.append(i)
+                        continue
+                if done[i].is_set():
+                    reported.add(i)
+                    events.append(outcome[i])
+                    if kbusy[0] == i:
+                        kbusy[0] = None
+        lost = False
+        for st in spec["steps"]:
+            op = st[0]
+            must = set()
+            if op in ("kcall", "tcall"):
+                i = st[1]
+                if op == "kcall" and kbusy[0] is not None:
+                    notes.append("kcall %d skipped: the klong loop is occupied" % i)
+                    continue
+                kinds[i] = op
+                done[i] = threading.Event()
+                events.append(["call", i])
+                if op == "kcall":
+                    kbusy[0] = i
+                    kl.call_soon_threadsafe(do_call, i)
+                else:
+                    threading.Thread(target=do_call, args=(i,), daemon=True).start()
+                t0 = time.time()
+                while time.time() - t0 < 2 * DEADLINE and i not in sent_ids() and not done[i].is_set():
+                    time.sleep(0.002)
+                io_quiesce(3)
+                if i in sent_ids():
+                    events.append(["sent", i])
+                else:
+                    must.add(i)
+            elif op == "resp":
+                i = st[1]
+                ids = sent_ids()
+                if i not in ids or lost:
+                    continue
+                events.append(["resp", i, ["v", i]])
+                io.call_soon_threadsafe(reader.feed_data, ipc.encode_message(uuid.UUID(bytes=ids[i]), ("a", i)))
+                io_quiesce()
+                must.add(i)
+            elif op == "push":
+                # a request from the peer while calls may be pending (not generated by default: see notes, re-entrancy)
+                io.call_soon_threadsafe(reader.feed_data, ipc.encode_message(uuid.UUID(int=4242 + len(events)), "1+1"))
+                io_quiesce()
+            elif op in ("cut", "reset", "closereq"):
+                if lost:
+                    continue
+                lost = True
+                events.append(["loss"])
+                if op == "cut":
+                    part = {"between": 0, "id": 7, "len": 18, "body": 23}[st[1]]
+                    data = ipc.encode_message(uuid.UUID(int=5), ("a", 123456789))[:part]
+                    if data:
+                        io.call_soon_threadsafe(reader.feed_data, data)
+                    io.call_soon_threadsafe(reader.feed_eof)
+                elif op == "reset":
+                    def doit():
+                        w.closed = True
+                        reader.set_exception(ConnectionResetError("reset by peer"))
+                    io.call_soon_threadsafe(doit)
+                else:
+                    io.call_soon_threadsafe(reader.feed_data, ipc.encode_message(uuid.UUID(int=99), ipc.KGRemoteCloseConnection()))
+                io_quiesce()
+                must |= set(done)
+            collect(must)
+        collect(set(done) if lost else set())
+        blocked = [i for i in sorted(done) if not done[i].is_set()]
+        res = {"events": events, "hung": hung, "blocked": blocked, "kinds": {str(i): k for i, k in kinds.items()}, "notes": notes,
+               "handlers_ran": [int(klong['nopen']), int(klong['nerr']), int(klong['nclosed'])] if not hung else None}
+        for lp, st_ in ((io, ios), (kl, kls)):
+            try:
+                lp.call_soon_threadsafe(st_.set)
+            except Exception:
+                pass
+        return res
+
     def server_play(kinds):
         """a real server-side NetworkClient (TcpServerHandler.handle_client -> run_server) with a real interpreter on its own
         klong loop; the harness is the client at frame level"""
@@ -1044,6 +1239,8 @@ def child_main():
         try:
             if "server" in job:
                 r = server_play(job["server"])
+            elif "kloop" in job:
+                r = kloop_play(job["kloop"])
             else:
                 r = Play(job["script"]).run(set(job.get("expect_done", [])))
             if r.get("hung") or r.get("protocol_broken"):
@@ -1224,6 +1421,130 @@ def evaluate(chk, scripts, label="scripts"):
     return prop_fail, corr_fail, infra
 
 
+def gen_kloop_scripts(rng, tier):
+    """the server-side connection as a caller: calls from the klong-loop thread (k) and from other threads (t)"""
+    out = []
+    losses = [["cut", c] for c in CUT_CLASSES] + [["reset"], ["closereq"]]
+    shapes = [["k"], ["t"], ["k", "t"], ["t", "k"], ["t", "t"], ["t", "k", "t"], ["k", "t", "t"]]
+    li = 0
+    for handlers in (True, False):
+        for shape in shapes:
+            for answered in ([], [0], [len(shape) - 1]):
+                if tier == "quick" and not handlers and answered:
+                    continue
+                steps = []
+                for i, kind in enumerate(shape):
+                    if kind == "k" and any(shape[j] == "k" for j in range(i)):
+                        continue
+                    steps.append(["kcall" if kind == "k" else "tcall", i])
+                    if i in answered and (kind == "k" or True):
+                        steps.append(["resp", i])
+                # a response only unblocks the klong loop if it is the klong caller's: answer in issue order where needed
+                steps.append(list(losses[li % len(losses)]))
+                li += 1
+                n = len(shape)
+                steps.append([rng.choice(["kcall", "tcall"]), n])
+                out.append({"handlers": handlers, "steps": steps})
+    return out
+
+
+def kloop_model_request(spec):
+    n = 1 + max([st[1] for st in spec["steps"] if st[0] in ("kcall", "tcall")] + [0])
+    ms = [["connect", 1], ["collect"]]
+    for st in spec["steps"]:
+        if st[0] in ("kcall", "tcall"):
+            ms += [["invoke", st[1]], ["reg", st[1]], ["sched", st[1]], ["send", st[1]]]
+        elif st[0] == "resp":
+            ms += [["resp", st[1], 1], ["cleanall"]]
+        elif st[0] in ("cut", "reset", "closereq"):
+            ms += [[st[0]], ["cleanall"]]
+        else:
+            continue
+        ms.append(["collect"])
+    return n, sx(["play", 1, [0] * n, ms])
+
+
+def canon_prompt(evs):
+    """after the loss the server side also closes its provider (handle_client's finally): `connection not established`
+    instead of AttributeError -- both are the prompt failure the property asks for"""
+    out, lost = [], False
+    for e in evs:
+        e = list(e)
+        if e[0] == "loss":
+            lost = True
+        if lost and e[0] == "raise" and e[2] in ("attr", "notest"):
+            e[2] = "prompt"
+        out.append(sx(e))
+    return out
+
+
+KNOWN_REENTRANCY = {"handlers": True, "steps": [["kcall", 0], ["push"], ["resp", 0]]}
+
+
+def evaluate_kloop(chk, specs):
+    reqs = [kloop_model_request(sp) for sp in specs]
+    outs = chk.run_model([r[1] for r in reqs])
+    res = run_impl([{"kloop": sp} for sp in specs])
+    # which callers are pending at the loss, and on which thread: the klong-loop model's verdict
+    def pending_at_loss(sp):
+        pend, kinds = [], {}
+        for st in sp["steps"]:
+            if st[0] in ("kcall", "tcall"):
+                kinds[st[1]] = 1 if st[0] == "kcall" else 0
+                pend.append(st[1])
+            elif st[0] == "resp" and st[1] in pend:
+                pend.remove(st[1])
+            elif st[0] in ("cut", "reset", "closereq"):
+                break
+        return [kinds[i] for i in pend]
+    kouts = chk.run_model([sx(["kloop", pending_at_loss(sp)]) for sp in specs])
+    checks = chk.run_model([sx(["check", rq[0], r.get("events", [])]) if "events" in r else "(check 0 ())" for rq, r in zip(reqs, res)])
+    prop_fail, corr_fail, infra = [], [], []
+    for sp, rq, o, ko, r, c in zip(specs, reqs, outs, kouts, res, checks):
+        if r.get("skipped"):
+            chk.count("skipped_after_two_hangs_in_worker")
+            continue
+        chk.count("evaluations")
+        chk.count("klong_loop_caller_scripts")
+        if "error" in r or o[0] != "ok" or ko[0] != "ok":
+            infra.append({"kloop": sp, "error": r.get("error", repr(o))})
+            continue
+        chk.count("distinct_nontrivial")
+        mv = model_view(o)
+        cd = model_view(c) if c[0] == "ok" else {"check": [0]}
+        deadlock_model = model_view(ko)["deadlock"][0] == 1
+        if r["hung"] or r["blocked"] or cd["check"][0] != 1:
+            prop_fail.append({"kloop": sp, "observed_history": [sx(e) for e in r["events"]], "hung": r["hung"], "blocked": r["blocked"],
+                              "callers": r["kinds"], "klong_loop_model_predicts_deadlock": deadlock_model, "notes": r["notes"]})
+            continue
+        why = None
+        if canon_prompt(mv["hist"]) != canon_prompt(r["events"]):
+            why = "history differs: model %s / implementation %s" % (" ".join(canon_prompt(mv["hist"])), " ".join(canon_prompt(r["events"])))
+        elif deadlock_model:
+            why = "the klong-loop model predicts a deadlock after the loss but every caller returned"
+        elif r["notes"]:
+            why = "driver notes: " + "; ".join(r["notes"])
+        if why:
+            corr_fail.append({"kloop": sp, "difference": why})
+        chk.sample({"klong_loop_caller_script": [" ".join(str(x) for x in st) for st in sp["steps"]], "handlers": sp["handlers"],
+                    "history": " ".join(sx(e) for e in r["events"])}, limit=10)
+    return prop_fail, corr_fail, infra
+
+
+def replay_known_reentrancy(chk):
+    """KNOWN FINDING: a call pending from the klong loop + a request of the peer read before its response"""
+    r = run_impl([{"kloop": KNOWN_REENTRANCY}], workers=1)[0]
+    chk.count("known_finding_replays")
+    if "error" in r:
+        raise RuntimeError("known-finding replay failed: %s" % r["error"])
+    if r["hung"] == [0] or r["blocked"] == [0]:
+        chk.finding("C14-klong-reentrancy", "a call issued from the klong-loop thread waits forever when the peer's request is read before its response",
+                    {"kloop": KNOWN_REENTRANCY, "observed": r})
+        return None
+    # the implementation no longer deadlocks there although the model (C14_klong_reentrancy_refuted) says it does
+    return {"kloop": KNOWN_REENTRANCY, "difference": "the re-entrancy deadlock predicted by C14_klong_reentrancy_refuted did not occur", "observed": r}
+
+
 def evaluate_server(chk, seqs):
     """the server half: real handle_client/run_server/execute_server_command against `serve` of the extracted model"""
     seen, uniq = set(), []
@@ -1283,13 +1604,21 @@ def run(tier, replay=None):
     prop_fail, corr_fail, infra = evaluate(chk, scripts)
     spf, scf, sinfra = evaluate_server(chk, gen_server_sequences(rng, tier))
     infra += sinfra
+    kpf, kcf, kinfra = evaluate_kloop(chk, gen_kloop_scripts(rng, tier))
+    infra += kinfra
+    known_diff = replay_known_reentrancy(chk)
+    if known_diff is not None:
+        kcf.append(known_diff)
     if infra:
         raise RuntimeError("implementation driver failed on %d scripts, first: %s" % (len(infra), json.dumps(infra[0])[:1500]))
     for pf in spf[:2]:
         chk.violation("server half: %s in request sequence %r" % (pf["what"], pf["server_requests"]), pf)
-    corr_fail += scf
+    for pf in kpf[:2]:
+        chk.violation("a caller of the server-side connection is left waiting forever (calls %r; callers %r) in [%s]"
+                      % (pf["hung"] or pf["blocked"], pf["callers"], " ; ".join(" ".join(str(x) for x in st) for st in pf["kloop"]["steps"])), pf)
+    corr_fail += scf + kcf
     searched = False
-    if not prop_fail and not spf and (corr_fail or not proof["ok"]) and tier == "quick":
+    if not prop_fail and not spf and not kpf and (corr_fail or not proof["ok"]) and tier == "quick":
         # something no longer checks: look harder for a concrete failing history (the thorough universe)
         searched = True
         more = gen_scripts(random.Random(chk.seed * 7919 + 15), "thorough")
@@ -1316,7 +1645,8 @@ def run(tier, replay=None):
              "out to a maximal run; calls racing run_client() before connect() returns (which then succeeds or raises), with both providers; failing on_error/on_close callbacks in a quarter of the scripts; "
              "every script without a cleanup pause is also replayed at BYTE level (the chunks actually fed, decoded by C13's reader inside the model); server half = request sequences on a real handle_client/run_server with a real interpreter, one request kind per evaluation "
              "outcome class (values, functions, unpicklable value, KlongException, syntax error, ValueError, user Exception, arity error, unknown symbol, KeyError, "
-             "StopIteration, StopIteration subclass, exhausted iterator, BaseException) each followed by a further request; distinct = distinct effective script after the model dropped disabled steps; non-trivial = >=2 calls or a fault",
+             "StopIteration, StopIteration subclass, exhausted iterator, BaseException) each followed by a further request; klong-loop callers = real handle_client with .srv.* handlers, "
+             "calls issued from the klong-loop thread and from other threads, pending or answered when the stream is cut / reset / closed by the peer, then a later call; distinct = distinct effective script after the model dropped disabled steps; non-trivial = >=2 calls or a fault",
         trusted_base=TRUSTED, assumptions=ASSUME,
         extra={"traces_validated_against_impl": chk.counters.get("evaluations", 0), "wider_search_ran": searched})
 
@@ -1326,6 +1656,11 @@ def replay(path):
     rp = body.get("replay", {})
     print(json.dumps(body, indent=1)[:3000])
     s = rp.get("script")
+    if rp.get("kloop"):
+        r = run_impl([{"kloop": rp["kloop"]}], workers=1)[0]
+        print("expected: every caller returns or raises within the deadline")
+        print("actual (implementation): %s" % json.dumps(r))
+        return 0
     if rp.get("server_requests"):
         chk = Check("C14", "quick")
         chk.generate(generate())
